@@ -115,7 +115,25 @@ pub enum DiffOut {
     Ok(OwnedDiff),
 }
 
+/// A real `PageRangeSnapshot`, type-erased.
+pub trait AnySnap {
+    /// what the snapshot describes NOW (through `PageRangeSnapshot::iter`)
+    fn ranges(&self) -> Vec<OwnedRange>;
+}
+
+struct SnapBox<K>(PageRangeSnapshot<K>);
+impl<K: KeyT> AnySnap for SnapBox<K> {
+    fn ranges(&self) -> Vec<OwnedRange> {
+        self.0
+            .iter()
+            .map(|p| (p.start().as_ref().to_vec(), p.end().as_ref().to_vec(), *p.hash().as_bytes()))
+            .collect()
+    }
+}
+
 pub trait AnyTree {
+    /// an owned `PageRangeSnapshot` of the current page ranges (None if not serialisable)
+    fn snapshot(&self) -> Option<Box<dyn AnySnap>>;
     /// Upsert; `Err` if the digests in the script do not match what the configured hasher produces.
     fn ups(&mut self, key: &[u8], kd: &[u8], vd: &[u8], val: Option<&[u8]>) -> Result<(), String>;
     fn hash(&mut self) -> [u8; 16];
@@ -285,6 +303,10 @@ where
     fn ser(&self) -> Option<Vec<OwnedRange>> {
         self.t.serialise_page_ranges().map(|v| to_owned_ranges(&v))
     }
+    fn snapshot(&self) -> Option<Box<dyn AnySnap>> {
+        let v = self.t.serialise_page_ranges()?;
+        Some(Box::new(SnapBox(PageRangeSnapshot::from(v))))
+    }
     fn diff_with(&self, peer: &dyn AnyTree, c16: &mut Vec<String>) -> DiffOut {
         let own = |v: Vec<merkle_search_tree::diff::DiffRange<'_, K>>| -> OwnedDiff {
             v.iter()
@@ -313,6 +335,38 @@ where
                     .map(|p| PageRange::new(p.start(), p.end(), p.hash().clone()))
                     .collect();
                 let mut bad = vec![];
+                // snapshots built from borrowed ranges, from rebuilt ranges and from owned ranges
+                // constructed out of the accessor values must compare equal
+                for src in [&l, &r] {
+                    let s1 = PageRangeSnapshot::from(src.clone());
+                    let rebuilt: Vec<PageRange<'_, K>> = src
+                        .iter()
+                        .map(|p| PageRange::new(p.start(), p.end(), p.hash().clone()))
+                        .collect();
+                    let s2 = PageRangeSnapshot::from(rebuilt);
+                    let owned: Vec<merkle_search_tree::diff::OwnedPageRange<K>> = src
+                        .iter()
+                        .map(|p| {
+                            merkle_search_tree::diff::OwnedPageRange::new(
+                                p.start().clone(),
+                                p.end().clone(),
+                                p.hash().clone(),
+                            )
+                        })
+                        .collect();
+                    let s3 = PageRangeSnapshot::from(owned);
+                    let wire: Vec<(K, K, PageDigest)> = src
+                        .iter()
+                        .map(|p| (p.start().clone(), p.end().clone(), p.hash().clone()))
+                        .collect();
+                    let s4: PageRangeSnapshot<K> = wire
+                        .iter()
+                        .map(|(a, b, h)| PageRange::new(a, b, h.clone()))
+                        .collect();
+                    if s1 != s2 || s1 != s3 || s1 != s4 || s1.clone() != s1 {
+                        bad.push("snapshots of the same ranges built through different routes compare unequal".to_string());
+                    }
+                }
                 if rl != l || rr != r {
                     bad.push("ranges rebuilt from accessors compare unequal".to_string());
                 }
@@ -419,6 +473,8 @@ pub fn range_new_ok(s: &Vec<u8>, e: &Vec<u8>) -> bool {
 #[derive(Clone, Debug, PartialEq, Eq)]
 pub enum Ctor {
     Builder,
+    /// `with_level_base` BEFORE `with_hasher`
+    BuilderBaseFirst,
     Default,
     Deprecated,
 }
@@ -439,7 +495,7 @@ pub enum KeyKind {
 
 fn table_tree<const N: usize>(base: u8, ctor: &Ctor) -> Result<Box<dyn AnyTree>, String> {
     let ctor = ctor.clone();
-    if ctor != Ctor::Builder && base != 16 {
+    if ctor != Ctor::Builder && ctor != Ctor::BuilderBaseFirst && base != 16 {
         return Err("only the builder takes a level base".into());
     }
     let mk: Rc<dyn Fn() -> MerkleSearchTree<TKey<N>, TVal<N>, TableHasher, N>> = match ctor {
@@ -447,6 +503,12 @@ fn table_tree<const N: usize>(base: u8, ctor: &Ctor) -> Result<Box<dyn AnyTree>,
             Builder::default()
                 .with_hasher(TableHasher)
                 .with_level_base(NonZeroU8::new(base).unwrap())
+                .build()
+        }),
+        Ctor::BuilderBaseFirst => Rc::new(move || {
+            Builder::default()
+                .with_level_base(NonZeroU8::new(base).unwrap())
+                .with_hasher(TableHasher)
                 .build()
         }),
         #[allow(deprecated)]
@@ -494,6 +556,15 @@ fn sip_tree<K: KeyT + std::hash::Hash>(
                 Builder::default()
                     .with_hasher(h.clone())
                     .with_level_base(NonZeroU8::new(base).unwrap())
+                    .build()
+            })
+        }
+        Ctor::BuilderBaseFirst => {
+            let h = hasher.clone();
+            Rc::new(move || {
+                Builder::default()
+                    .with_level_base(NonZeroU8::new(base).unwrap())
+                    .with_hasher(h.clone())
                     .build()
             })
         }
